@@ -169,8 +169,14 @@ pub struct EnvLive<const L: usize, E: EnvLike<L>> {
     pub dead: bool,
 }
 
+/// Long runs only look at the verdicts of the model-free oracles (`sh=`, `rngck=`): no observation text.
+pub static QUIET: std::sync::atomic::AtomicBool = std::sync::atomic::AtomicBool::new(false);
+
 impl<const L: usize, E: EnvLike<L>> EnvLive<L, E> {
     pub fn obs(&self, res: &str, sh: &str, perm: &str, rngck: &str) -> String {
+        if QUIET.load(std::sync::atomic::Ordering::Relaxed) {
+            return format!("r={} sh={} perm=- rngck={} n=0", res, sh, rngck);
+        }
         let mut s = format!("r={} sh={} perm={} rngck={} n={}", res, sh, perm, rngck, self.env.n_assets());
         for a in 0..self.env.n_assets() {
             s.push_str(" | ");
@@ -306,10 +312,11 @@ impl EGen {
         let cap = match self.profile.as_str() {
             "overfull" => (self.step as usize) * 3 + 2,
             "unusual" => (self.step as usize * 2).min(14),
+            "long" => 7,
             "empty" => 2,
             _ => (self.step as usize).min(12),
         };
-        let n = if self.profile == "overfull" { self.rng.gen_range((self.step as usize + 1)..=cap) }
+        let n = if self.profile == "long" { [6usize, 6, 6, 5, 7][self.rng.gen_range(0..5)] } else if self.profile == "overfull" { self.rng.gen_range((self.step as usize + 1)..=cap) }
                 else if self.chance(0.1) { 0 } else { self.rng.gen_range(0..=cap) };
         let offgrid = self.profile == "malformed" || self.profile == "py" || self.profile == "npy";
         let npy = self.profile == "npy";
@@ -355,6 +362,29 @@ impl EGen {
         if self.chance(0.08) { ops.push(EOp::Step); }
         ops
     }
+}
+
+/// A long run judged by the model-free oracles alone: real stand-alone shadow books replaying every batch in
+/// the order the real `shuffle` gives for a clone of the generator, and the generator having advanced by exactly
+/// one shuffle per step. Prints one `L` line: `L <id> steps=<n> instr=<n> ok` or `... BAD:<what>@step<k>`.
+pub fn run_env_long<const L: usize, E: EnvLike<L>, W: Write>(h: &EnvHeader, env: E, g: &mut EGen, rounds: usize, w: &mut W) {
+    QUIET.store(true, std::sync::atomic::Ordering::Relaxed);
+    let shadows = h.ticks.iter().map(|t| OrderBook::<L>::new(h.t0, *t, h.trading)).collect();
+    let mut live = EnvLive { env, rng: Xoroshiro128StarStar::seed_from_u64(h.seed), shadows, queue: Vec::new(), trading: h.trading, dead: false };
+    let mut instr = 0usize;
+    let mut verdict = "ok".to_string();
+    'outer: for r in 0..rounds {
+        let ops = g.next_round(&live);
+        for op in ops.iter() {
+            if !matches!(op, EOp::Step) { instr += 1; }
+            let i = live.step(op);
+            if live.dead { verdict = format!("BAD:panic@step{}", r); break 'outer; }
+            if i.contains("sh=DIVERGE") { verdict = format!("BAD:shadow_DIVERGE@step{}", r); break 'outer; }
+            if i.contains("rngck=0") { verdict = format!("BAD:generator_not_advanced_by_exactly_one_shuffle@step{}", r); break 'outer; }
+        }
+    }
+    QUIET.store(false, std::sync::atomic::Ordering::Relaxed);
+    writeln!(w, "L {} steps={} instr={} {} {}", h.id, rounds, instr, verdict, h.line().replace(' ', "_")).unwrap();
 }
 
 pub fn run_env<const L: usize, E: EnvLike<L>, W: Write>(h: &EnvHeader, env: E, g: Option<&mut EGen>, fixed: &[EOp], rounds: usize, w: &mut W) {
